@@ -449,7 +449,23 @@ class Ctx:
                     ex.known_hits.setdefault(f'{kind}.{name.split("/")[-1].split(".", 1)[1]}', self._model_json(s2.model(), model_terms))
         elif r == z3.sat:
             ob.status = 'violated'
-            ob.model = self._model_json(s.model(), model_terms)
+            m = s.model()
+            # prefer a small scenario (replayable on the real code): tighten the named size inputs while still sat
+            try:
+                s.set('timeout', 1500)
+                sizes = [(k, t) for k, t in self.named.items() if k.startswith('n_') and z3.is_int(t)]
+                for bound in (12, 70, 600):
+                    s.push()
+                    for k, t in sizes:
+                        s.add(t <= bound)
+                    if s.check() == z3.sat:
+                        m = s.model()
+                        s.pop()
+                        break
+                    s.pop()
+            except Exception:
+                pass
+            ob.model = self._model_json(m, model_terms)
         else:
             ob.status = 'undecided'
             ob.reason = f'solver unknown ({s.reason_unknown()})'
